@@ -351,6 +351,22 @@ def e2(proj, rep):
                         rep.ok('E2', f'{fname} phase split', f'code = ({c})*(x.z) + ... mod 4, stored as (code//2, code%2)', m, s, text=f'{fname} split')
                     else:
                         rep.violation('E2', f'{fname} phase split', f'phase code `{nm}` is not stored as ({nm}//2, {nm}%2)', m, s, text=f'{fname} split')
+    # an overlap count that is split into (code//2, code%2) WITHOUT the reduction mod 4: the high "bit" exceeds 1 for >= 4 Y factors
+    for fname in ('pauli_str_to_F2', 'pauli_index_to_F2'):
+        if fname in enc:
+            continue
+        f = _func(proj, fname)
+        for s in ast.walk(f.node):
+            if isinstance(s, ast.Assign) and isinstance(s.targets[0], ast.Name) and _overlap_coeff(s.value) is not None \
+                    and not (isinstance(s.value, ast.BinOp) and isinstance(s.value.op, ast.Mod)):
+                nm = s.targets[0].id
+                split = [x for x in ast.walk(f.node) if isinstance(x, ast.List) and len(x.elts) == 2
+                         and ast.unparse(x.elts[0]).replace(' ', '') == f'{nm}//2' and ast.unparse(x.elts[1]).replace(' ', '') == f'{nm}%2']
+                if split:
+                    n += 1
+                    rep.violation('E2', f'{fname} phase split', f'`{ast.unparse(s)[:90]}` is stored as ({nm}//2, {nm}%2) without `% 4`: for an operator '
+                                  f'with 4 or more Y factors the first sign "bit" is >= 2 (not an F2 entry; the phase of YYYY... is wrong)', m, s,
+                                  text=f'{fname} split')
     f = _func(proj, 'pauli_F2_to_str')
     dec = None
     for s in ast.walk(f.node):
@@ -385,4 +401,46 @@ def e2(proj, rep):
         rep.ok('E2', 'pauli_F2_to_str sign', 'sign = 1j**code', m, pw[0], text='decoder sign')
     else:
         rep.violation('E2', 'pauli_F2_to_str sign', 'decoder does not return 1j**code', m, f.node, text='decoder sign')
+    return n
+
+
+
+# ------------------------------------------------------------------------------------------------ E3
+RULE_E3 = ('E3: rand_pauli fixes hermiticity through the LOW phase bit only: a Pauli i^(2 b0 + b1) X^x Z^z is Hermitian iff b1 + x.z is even, so '
+           'both arms of `if is_hermitian` assign the same slot F2[1] - the x.z parity in the Hermitian arm and its complement in the other.')
+
+
+def e3(proj, rep):
+    rep.rule('E3', RULE_E3)
+    f = proj.func('numqi.random._spf2.rand_pauli')
+    m = f.module
+    rep.touch(m)
+    node = next((x for x in ast.walk(f.node) if isinstance(x, ast.If) and isinstance(x.test, ast.Name) and x.test.id == 'is_hermitian'), None)
+    if node is None or len(node.body) != 1 or len(node.orelse) != 1 or not all(isinstance(x, ast.Assign) for x in node.body + node.orelse):
+        rep.undecided('E3', f.qual, '`if is_hermitian:` twin assignment not found', m, f.node, text='hermitian arms')
+        return 0
+    a, b = node.body[0], node.orelse[0]
+    ta, tb = ast.unparse(a.targets[0]).replace(' ', ''), ast.unparse(b.targets[0]).replace(' ', '')
+    n = 1
+    if ta != tb:
+        rep.violation('E3', f.qual, f'the two arms write different slots ({ta} / {tb}): the anti-Hermitian request leaves the parity bit random and '
+                      f'flips the overall sign bit instead', m, b)
+    elif ta != 'F2[1]':
+        rep.violation('E3', f.qual, f'hermiticity is fixed through {ta}; it depends on the low phase bit F2[1] only', m, a)
+    else:
+        rep.ok('E3', f.qual, 'both arms write F2[1]', m, node)
+    n += 1
+    va, vb = ast.unparse(a.value).replace(' ', ''), ast.unparse(b.value).replace(' ', '')
+    par = None
+    for st in ast.walk(f.node):
+        if isinstance(st, ast.Assign) and isinstance(st.targets[0], ast.Name) and st.targets[0].id == va:
+            par = ast.unparse(st.value).replace(' ', '')
+    okp = par is not None and par.endswith('%2') and 'dot(F2[2:2+n],F2[2+n:])' in par.replace('(2+n)', '2+n')
+    if okp and vb in (f'1-{va}', f'({va}+1)%2', f'1^{va}', f'{va}^1'):
+        rep.ok('E3', f.qual, f'Hermitian arm stores the x.z parity, the other arm its complement', m, node)
+    elif not okp:
+        rep.undecided('E3', f.qual, f'parity expression `{par}` not recognised', m, node, text='parity')
+        n -= 1
+    else:
+        rep.violation('E3', f.qual, f'arms store `{va}` and `{vb}`: not a parity and its complement', m, b)
     return n
